@@ -113,7 +113,7 @@ fn body50(c: &Ctx) {
         vassert!(b.track.is_some() && trunc_ok(o.track_num, 512, b.track.unwrap_or(0) as i64), "C10: a valid, advertised BDS 5,0 register is not decoded (true track)");
     }
 }
-// @harness name=c10_bds50_df21 props=C10 tier=quick cap=2400 mem=24
+// @harness name=c10_bds50_df21 props=C10,C11 tier=quick cap=2400 mem=24
 // BDS 5,0 soundness + completeness (turns in either direction), DF21
 commb!(c10_bds50_df21, 21, body50);
 // @harness name=c10_bds50_df20 props=C10 tier=thorough cap=2400 mem=24
